@@ -37,6 +37,14 @@ ResMatch(want, got) ==
   \/ want = got
   \/ \E w \in want : w[1] = "stat" /\ w[2] = "" /\ \E g \in got : g[1] = "stat" /\ g[3] = w[3]
 
+\* the observed outcome is one the specification allows; a backend checked under the C02
+\* preconditions ("pre" in the event) may, outside them, answer anything but must fail cleanly
+Allowed(t, e, obsR, obsT) ==
+  \/ \E o \in EvOutcomes(t, e) : ResMatch(o.res, obsR) /\ o.t = obsT
+  \/ /\ "pre" \in DOMAIN e
+     /\ ~EvClimbs(e) /\ ~PreC(t, ViewOp(e, Reduce))
+     /\ CleanChange(t, obsT, {e.base \o Reduce(e.sp)} \cup (IF e.name \in TwoPath THEN {e.base \o Reduce(e.sq)} ELSE {}))
+
 Init == l = 1 /\ tree = EmptyTree /\ handles = << >>
 
 Ev == TraceLog[l]
@@ -49,7 +57,7 @@ TraceOp ==
   /\ LET e == Ev
          obsT == TreeVal(e.tree)
          obsR == ResOf(e.res) IN
-     /\ \E o \in EvOutcomes(tree, e) : ResMatch(o.res, obsR) /\ o.t = obsT
+     /\ Allowed(tree, e, obsR, obsT) = TRUE   \* "= TRUE": evaluated as an expression, not enumerated as an action
      /\ tree' = obsT
      /\ handles' = IF "h" \in DOMAIN e
                    THEN [x \in DOMAIN handles \cup {e.h} |-> IF x = e.h THEN obsR ELSE handles[x]]
